@@ -365,12 +365,23 @@ def _weight(label):
     return 1 if any(mj in label for mj in MAJOR) or label.startswith('queue') else 2
 
 
+# statement-granularity pass: every statement of the consumer MDIB code (load, buffering, report processing) is a
+# scheduling point, so that a check-then-act on state that lost its lock is visible without a lock operation in between
+LINE_ANCHORS = sched.LineAnchors([('mdib/consumermdib.py', '*'), ('mdib/consumermdibxtra.py', '*')])
+
+
+def _line_weight(label):
+    return 1 if label.startswith('line:') or label.startswith('queue') or any(mj in label for mj in MAJOR) else 99
+
+
 class RaceRun:
     def __init__(self, scenario, prefix, all_points=False):
         self.scenario = scenario
         mode, events = scenario
         self.s = sched.Scheduler(prefix)
-        if not all_points:
+        if all_points == 'lines':
+            self.s.line_anchors = LINE_ANCHORS
+        elif not all_points:
             self.s.point_filter = lambda label: any(mj in label for mj in MAJOR)
         world.install()
         w = world.World()
@@ -464,7 +475,7 @@ RACE_SCENARIOS = [
 
 
 def _race_key(a):
-    return f'{a[0][0]} || ' + '>'.join(a[0][1]) + f' /bound={a[1]}/{"all" if a[3] else "major"}'
+    return f'{a[0][0]} || ' + '>'.join(a[0][1]) + f' /bound={a[1]}/{"statements" if a[3] == "lines" else "all" if a[3] else "major"}'
 
 
 def _race_work(acc, job):
@@ -472,10 +483,13 @@ def _race_work(acc, job):
     scenario, bound, cap, all_points = arg
     name = _race_key(arg)
     found = {}
+    _weight = _line_weight if all_points == 'lines' else globals()['_weight']
 
     def one(prefix):
         r = RaceRun(scenario, prefix, all_points).go()
         problems = r.judge()
+        if all_points == 'lines':
+            acc.add('statement-points', r.s.line_points)
         return r.s.trace, (tuple(p[0] for p in problems), problems, r.s.choices(), r.m.mdib_version)
 
     def on_exec(prefix, trace, payload):
@@ -534,10 +548,12 @@ def run(ctx):
     bound = 1 if ctx.quick else 3
     if ctx.quick:
         rjobs = [(s, 1, 3000, False) for s in RACE_SCENARIOS[:8]] + [(RACE_SCENARIOS[1], 2, 3000, False)]
+        rjobs += [(s, 1, 3000, 'lines') for s in RACE_SCENARIOS[1:2]]
     else:
         # the cap is per subtree group (see sched.run_partitioned): budgets chosen for about a quarter of an hour
         rjobs = [(s, 3 if len(s[1]) == 1 else 2, 1500, False) for s in RACE_SCENARIOS]
         rjobs += [(s, 2, 1500, True) for s in RACE_SCENARIOS[:4]]
+        rjobs += [(s, 1, 3000, 'lines') for s in RACE_SCENARIOS]
     sched.run_partitioned(ctx, _race_work, ctx.rotate(rjobs), _race_key, group=6)
     ctx.note('bounds', {'histories': len(hs), 'restart_cases': len(cases), 'race_scenarios': len(rjobs), 'preemption_bound': bound})
     ctx.assumptions.append('the consumer MDIB is restored between delivery sequences by re-inserting deep copies of the tables taken '
